@@ -42,7 +42,7 @@ func runC08(r *Run) {
 	t := r.T
 	cfg := drawAlgoCfg(t, []string{"vegas", "gradient", "gradient2"}, nil)
 	k := int64(t.Draw(1<<40, "twin-seed"))
-	nPrefix := t.Intn(200, "prefix")
+	nPrefix := t.Intn(scale(200, 900), "prefix")
 	g := newEnvGen(r)
 	g.maxRTT = 1 << 52
 	rand.Seed(k)
@@ -160,7 +160,7 @@ func runC15(r *Run) {
 		r.Fail("harness", "build", "%v", err)
 		return
 	}
-	n := 200 + t.Intn(1501, "samples")
+	n := 200 + t.Intn(scale(1501, 4000), "samples")
 	level := []int64{1e6, 1e3, 5e7, 100}[t.Intn(4, "level")]
 	r.Mixf("C15 %s samples=%d level=%d", cfg, n, level)
 	rtts := make([]int64, 0, n)
@@ -338,7 +338,7 @@ func runC16(r *Run) {
 	g := newEnvGen(r)
 	g.noZero = true // rtt=0 poisons Gradient/Gradient2 (C04's finding); C16 is about notifications
 	g.maxRTT = 1 << 53
-	n := 20 + t.Intn(181, "ops")
+	n := 20 + t.Intn(scale(181, 800), "ops")
 	nl := t.Intn(5, "listeners")
 	var regAt []int
 	for i := 0; i < nl; i++ {
